@@ -73,7 +73,7 @@ func (e *tieEnc) defval(typ, expr string) string {
 		// not a constant: a non-NULL placeholder; the column is masked on both sides
 		return valTok("'?'")
 	}
-	q, err := evalDefault(e.ctx, typ, expr)
+	q, err := evalDefault(e.ctx, typ, expr, e.strictTable)
 	if err != nil {
 		e.skip = "default-not-evaluable"
 		return "N"
